@@ -66,14 +66,14 @@ impl WriteSource for pr::TyTupleField {
     fn write(&self, opt: WriteOpt) -> Option<String> {
         match self {
             Self::Wildcard(generic_el) => match generic_el {
-                Some(el) => Some(format!("{}..", el.write(opt)?)),
+                Some(el) => Some(format!("..{}", el.write(opt)?)),
                 None => Some("..".to_string()),
             },
             Self::Single(name, expr) => {
                 let mut r = String::new();
 
                 if let Some(name) = name {
-                    r += name;
+                    r += &super::ast::write_ident_part(name);
                     r += " = ";
                 }
                 if let Some(expr) = expr {
